@@ -225,6 +225,25 @@ class _Fold(ast.NodeTransformer):
 
     def visit_Call(self, n):
         self.generic_visit(n)
+        # reduce(operator.mul, (a, b, c), init) / math.prod((a, b, c)) / sum((a, b)) over known elements -> the expression
+        fn_ = U(n.func)
+        opname = None
+        seq = init = None
+        if fn_ in ('reduce', 'functools.reduce') and 2 <= len(n.args) <= 3 and not n.keywords and \
+                U(n.args[0]) in ('operator.mul', 'mul', 'operator.add', 'add'):
+            opname = ast.Mult() if U(n.args[0]).endswith('mul') else ast.Add()
+            seq, init = n.args[1], (n.args[2] if len(n.args) == 3 else None)
+        elif fn_ in ('math.prod', 'prod') and len(n.args) == 1 and all(k.arg == 'start' for k in n.keywords):
+            opname, seq = ast.Mult(), n.args[0]
+            init = n.keywords[0].value if n.keywords else None
+        if opname is not None and self.pure is not None:
+            elems = _lit_elems(seq, self.lookup)
+            if elems is not None and 1 <= len(elems) <= 8 and all(self.pure(x) for x in elems) and (init is None or self.pure(init)):
+                items = ([init] if init is not None else []) + list(elems)
+                expr = copy.deepcopy(items[0])
+                for x in items[1:]:
+                    expr = ast.BinOp(left=expr, op=copy.deepcopy(opname), right=copy.deepcopy(x))
+                return _set_loc(expr, n)
         if isinstance(n.func, ast.Name) and n.func.id in ('tuple', 'list') and len(n.args) == 1 and not n.keywords:
             out = self._expand(n.args[0])
             if out is not None:
